@@ -32,7 +32,7 @@ func (c19) Gen(rng *simrt.Rand, seed uint64, tier string) *Case {
 		perf.Strategy = "drop"
 	case "block":
 		perf.Strategy = "block"
-		perf.BlockTimeout = 0
+		perf.BlockTimeout = []int64{0, 0, -1, int64(-time.Second)}[rng.Intn(4)] // <= 0: no timeout
 	case "blockto":
 		perf.Strategy = "block"
 		perf.BlockTimeout = int64([]time.Duration{50 * time.Microsecond, time.Millisecond, 30 * time.Millisecond, time.Second}[rng.Intn(4)])
